@@ -304,6 +304,18 @@ func (vc *VC) bindVar(st *State, o *types.Var, v Val) {
 	}
 	if t, ok := v.(Term); ok {
 		v = vc.define(o.Name(), t)
+		if vc.addrTaken[o] && t.Sort != SPBox && t.Sort != SBox && vc.sortOf(o.Type()) != "" {
+			// its address is taken somewhere in the function: keep it in a heap cell from the start
+			ref := vc.allocRef(st, "addr!"+o.Name())
+			key := "P:" + typeKey(o.Type())
+			h := vc.heap(st, key, ArrSort(vc.sortOf(o.Type())))
+			saved := vc.checkFrm
+			vc.checkFrm = false
+			vc.setHeap(st, key, Store(h, ref, v.(Term)))
+			vc.checkFrm = saved
+			st.vars[o] = Term{ref.S, SPBox}
+			return
+		}
 	}
 	st.vars[o] = v
 }
@@ -546,6 +558,14 @@ func (vc *VC) execReturn(fr *frame, st *State, x *ast.ReturnStmt) {
 		}
 	case len(x.Results) == 1 && res.Len() > 1:
 		tv, _ := vc.evalExpr(fr, st, x.Results[0]).(TupleV)
+		// `return f()` with a multi-value f: each value is converted to the result type (boxing into interfaces)
+		if tup, ok := fr.typeOf(x.Results[0]).(*types.Tuple); ok && tup.Len() == len(tv) {
+			conv := make(TupleV, len(tv))
+			for i := range tv {
+				conv[i] = vc.convertAssign(fr, st, tv[i], tup.At(i).Type(), res.At(i).Type())
+			}
+			tv = conv
+		}
 		vals = tv
 	default:
 		for i, r := range x.Results {
